@@ -24,6 +24,7 @@ var plans = map[string]Plan{
 		Runs: []Run{
 			{Test: "^TestProps$/^no_leak$", Checks: checks(40, 600), Shards: shards(4, 16)},
 			{Test: "^TestProps$/^tuner_cli$", Checks: checks(8, 120), Shards: shards(3, 8)},
+			{Test: "^TestProps$/^heap_bounded$", Checks: checks(2, 6), Shards: shards(2, 8)},
 		},
 		Assumptions: []string{
 			"goroutine counts are sampled after a bounded settle loop; the verdict is growth in BOTH of two equal further batches (a one-off lazy start cannot trip it)",
